@@ -15,8 +15,8 @@ TECHNIQUE = 'loop-progress lint on every while loop; alias/effect analysis of th
 LEVEL_TEXT = ('Termination is decided by a progress rule on every loop (an exit test must read something the loop changes); non-mutation by an effect analysis over aliases of the parameters; '
               'the bookkeeping identities (volumes telescope, radii increase, gravity, enclosed mass, contiguity in every derived-geometry path, scaling) are exact identities of the extracted formulas '
               'for symbolic radii, thicknesses, masses and slice counts 2..5.')
-LEVEL_NOTE = 'Trusted: front-end, interpreter, real algebra (rounding of sums not decided). Shipped world configuration files themselves are not analysed (data, not code).'
-EXPLANATION = 'R16.1 loop progress; R16.2 inputs not mutated; R16.3 geometry/mass identities (also when the slice arrays were pre-filled by the layers, build_slices=False); R16.4 radius scaling and distinct names along derivation chains; R16.5 mass bookkeeping survives a derivation (parent reinit -> scale/build_from_world -> derived reinit).'
+LEVEL_NOTE = 'Trusted: front-end, interpreter, real algebra (rounding of sums not decided). The shipped world configuration files are checked as data (R16.6), not run through the builder.'
+EXPLANATION = 'R16.1 loop progress; R16.2 inputs not mutated; R16.3 geometry/mass identities (also when the slice arrays were pre-filled by the layers, build_slices=False); R16.4 radius scaling and distinct names along derivation chains; R16.5 mass bookkeeping survives a derivation (parent reinit -> scale/build_from_world -> derived reinit); R16.6 the shipped non-BurnMan layered configurations (directory and zip copies) state positive, strictly increasing radii that end at the world radius.'
 
 
 def run(chk):
@@ -240,8 +240,65 @@ def run(chk):
     # ------------------------------------------------------------------ R16.4 scaling and names
     scaling(chk, repo, mw, d, eq)
     derivation_mass(chk, repo, mw, d)
+    shipped_configs(chk)
     chk.floor('R16.1', 5); chk.floor('R16.2', 5); chk.floor('R16.3', 30); chk.floor('R16.4', 50)
     chk.assume('radius > thickness > 0, masses > 0')
+
+
+def shipped_configs(chk):
+    """R16.6 the shipped world configurations (data the package installs: TidalPy/WorldPack/*.toml and the copies inside WorldPack.zip).  For every non-BurnMan layered world the
+    layer radii must be positive and strictly increasing in file order (the builder takes each inner radius from the layer below, so this is what makes thicknesses and slices
+    increase) and the top layer must end at the world radius; stated densities must be positive.  BurnMan worlds are outside the property: what is found there is noted only."""
+    import os, tomllib, zipfile
+    base = os.path.join(chk.repo, 'TidalPy', 'WorldPack')
+    if not os.path.isdir(base):
+        raise AnalysisError('TidalPy/WorldPack vanished')
+    sources = []
+    for fn in sorted(os.listdir(base)):
+        if fn.endswith('.toml'):
+            with open(os.path.join(base, fn), 'rb') as fh:
+                sources.append((f'TidalPy/WorldPack/{fn}', fh.read()))
+    zp = os.path.join(base, 'WorldPack.zip')
+    if os.path.isfile(zp):
+        with zipfile.ZipFile(zp) as z:
+            for nm in sorted(z.namelist()):
+                if nm.endswith('.toml'):
+                    sources.append((f'TidalPy/WorldPack/WorldPack.zip!{nm}', z.read(nm)))
+    n = 0
+    for where, raw in sources:
+        try:
+            cfg = tomllib.loads(raw.decode('utf-8'))
+        except Exception as ex:
+            chk.ob('R16.6', f'{where} is a readable configuration', False, f'{type(ex).__name__}: {ex}', where.split('!')[0], key=f'R16.6|{where}|parse', method='data rule')
+            continue
+        layers = cfg.get('layers')
+        if not isinstance(layers, dict) or not layers:
+            continue
+        bad = []
+        R = cfg.get('radius')
+        prev = 0.0
+        for lname, ld in layers.items():
+            r = ld.get('radius') if isinstance(ld, dict) else None
+            if not isinstance(r, (int, float)):
+                bad.append(f'layer {lname} states no radius'); continue
+            if not r > prev:
+                bad.append(f'layer {lname}: radius {r} is not above the layer below ({prev})')
+            prev = r
+            dens = ld.get('density')
+            if dens is not None and not (isinstance(dens, (int, float)) and dens > 0):
+                bad.append(f'layer {lname}: density {dens!r} is not positive')
+        if isinstance(R, (int, float)) and prev != R:
+            bad.append(f'the top layer ends at {prev}, the world radius is {R}')
+        if not isinstance(R, (int, float)) or not R > 0:
+            bad.append(f'world radius {R!r}')
+        if str(cfg.get('type', '')).lower() == 'burnman':
+            if bad:
+                chk.note_analysed('shipped BurnMan configurations (outside the property)', f'{where}: ' + '; '.join(bad))
+            continue
+        n += 1
+        chk.ob('R16.6', f'{where} ({cfg.get("name")}, {len(layers)} layers): radii positive and strictly increasing, the top layer ends at the world radius, stated densities positive', not bad, '; '.join(bad[:3]),
+               where.split('!')[0], key=f'R16.6|{where}', method='data rule over the shipped TOML files')
+    chk.floor('R16.6', 4)
 
 
 def reinit_mass(repo, cfgd, layer_masses, glob_hook=None):
